@@ -21,6 +21,8 @@ type coverSpec struct {
 	Cover func(owner string, fn *ssa.Function, in ssa.Instruction) (id ssa.Value, all bool, ok bool)
 	// Edges: edges on which the obligation is void (e.g. no hook installed) are deleted
 	Edges func(owner string, fn *ssa.Function) edgeFilter
+	// VoidAllIn: functions in which a wholesale event handed up by a callee is no event (Load replaces an empty map)
+	VoidAllIn func(fn *ssa.Function) bool
 }
 
 type coverNeed struct {
@@ -95,7 +97,7 @@ func (e *coverEngine) solve() {
 					if f := c.StaticCallee(); f != nil && f != fn {
 						if o2, ok := stateOwnerOf(e.a, f); ok && o2 == owner {
 							if n := e.needs[f]; n != nil && !isFreshAt(c.Args[0], in) {
-								if n.All && !n.Param {
+								if n.All && !n.Param && !(e.spec.VoidAllIn != nil && e.spec.VoidAllIn(fn)) {
 									evID, desc, isEv = nil, n.Desc, true
 									chain = append([]string{fname(fn)}, n.Chain...)
 								}
